@@ -154,9 +154,19 @@ impl Model {
           if both_done {
             vec![vec![Ev::Complete]]
           } else {
-            // the statement is silent on an early completion after one input
-            // completed; both are accepted
-            vec![vec![], vec![Ev::Complete]]
+            // an input that completes without ever having emitted makes further
+            // combinations impossible: completing then is allowed (not required);
+            // completing while the other side can still combine with this
+            // side's latest value would lose combinations
+            let never_emitted = match side {
+              Side::A => self.la.is_none(),
+              Side::B => self.lb.is_none(),
+            };
+            if never_emitted {
+              vec![vec![], vec![Ev::Complete]]
+            } else {
+              vec![vec![]]
+            }
           }
         }
       },
